@@ -47,19 +47,19 @@ Theorem C09_charged_exactly : forall sh wired c s t s',
 Proof. exact charged_exactly. Qed.
 Print Assumptions C09_charged_exactly.
 
-(* A transaction whose messages fail leaves exactly the admission bookkeeping: the state is the
-   one the ante handler produced -- fee moved from payer to collector, signer accounts
-   (sequence, first-use public key), execution-status list extended, payment history of the payer
-   (only if wired); keys written by messages ([s_marks]), every other balance, every other account
-   are those of the state before. *)
-Theorem C09_failed_msgs_no_trace : forall sh wired c s t s',
-  run_tx sh wired c s t = (s', TxMsgFailed) -> admission sh wired c s t s'.
+(* A transaction whose messages fail -- by an error or by a panic -- leaves exactly the admission
+   bookkeeping: the state is the one the ante handler produced -- fee moved from payer to
+   collector, signer accounts (sequence, first-use public key), execution-status list extended,
+   payment history of the payer (only if wired); keys written by messages ([s_marks]), every other
+   balance, every other account are those of the state before. *)
+Theorem C09_failed_msgs_no_trace : forall sh wired post c s t s' r,
+  run_tx sh wired post c s t = (s', r) -> msgs_failed r -> admission sh wired c s t s'.
 Proof. exact failed_msgs_no_trace. Qed.
 Print Assumptions C09_failed_msgs_no_trace.
 
 (* A transaction refused at admission (error or panic) leaves nothing at all. *)
-Theorem C09_rejected_leaves_nothing : forall sh wired c s t s' r,
-  run_tx sh wired c s t = (s', r) -> r = TxAnteRejected \/ r = TxAntePanic -> s' = s.
+Theorem C09_rejected_leaves_nothing : forall sh wired post c s t s' r,
+  run_tx sh wired post c s t = (s', r) -> r = TxAnteRejected \/ r = TxAntePanic -> s' = s.
 Proof. exact run_tx_rejected. Qed.
 Print Assumptions C09_rejected_leaves_nothing.
 
@@ -86,7 +86,7 @@ Print Assumptions C09_refunds_le_payments_over_histories.
    public key is recorded *)
 Theorem C09_signers_bookkeeping : forall sh wired c s t s',
   ante sh wired c s t = Ok s' ->
-  forall a, In a (tx_signers (t_msgs t)) ->
+  forall a, In a (tx_signers t) ->
   exists ac, get_acct s a = Some ac /\ get_acct s' a = Some (mkAcct (a_seq ac + 1) true).
 Proof. exact ante_signers. Qed.
 Print Assumptions C09_signers_bookkeeping.
@@ -101,16 +101,42 @@ Theorem C09_checker_accepts_model_fee : forall sh wired c s t s',
 Proof. exact chk_fee_sound. Qed.
 Print Assumptions C09_checker_accepts_model_fee.
 
-(* ... and the balance clause of a transaction whose messages failed *)
-Theorem C09_checker_accepts_model_charge : forall sh wired c s t s',
-  run_tx sh wired c s t = (s', TxMsgFailed) -> payer_of t <> collector ->
-  forall a d, bal s' a d - bal s a d = expected_delta (t_fee t) (t_msgs t) false a d.
+(* ... the balance clause of a transaction whose messages failed ("charge:failed") ... *)
+Theorem C09_checker_accepts_model_charge : forall sh wired post c s t s' r,
+  run_tx sh wired post c s t = (s', r) -> msgs_failed r -> payer_of t <> collector ->
+  forall a d, bal s' a d - bal s a d = expected_delta c t false a d.
 Proof. exact chk_charge_failed_sound. Qed.
 Print Assumptions C09_checker_accepts_model_charge.
 
+(* ... and of a delivered one ("charge:delivered"): exactly the fee plus the transfers its
+   messages ask for (a custody send of an account with custodians is parked, not executed);
+   the "sequence" clause is C09_signers_bookkeeping *)
+Theorem C09_checker_accepts_model_charge_delivered : forall sh wired post c s t s',
+  run_tx sh wired post c s t = (s', TxOk) -> payer_of t <> collector ->
+  forall a d, bal s' a d - bal s a d = expected_delta c t true a d.
+Proof. exact chk_charge_delivered_sound. Qed.
+Print Assumptions C09_checker_accepts_model_charge_delivered.
+
+(* THE REFUND PATH IS DEAD WHILE UNWIRED.  The wiring is regenerated from app/app.go
+   ([gen_wired]: is the feeprocessing keeper the one handed to the SDK fee deduction;
+   [gen_post_handler_installed]).  With [wired = false] no payment history is ever recorded, over
+   any chain of blocks, whatever the post handler does ... *)
+Theorem C09_refund_path_dead_when_unwired : forall sh post c bs s s',
+  no_history s -> run_blocks sh false post c s bs = Ok s' -> no_history s'.
+Proof. exact refund_path_dead. Qed.
+Print Assumptions C09_refund_path_dead_when_unwired.
+
+(* ... and then the end of every block returns nothing to anybody: [refund_le_paid] holds with
+   every refund empty.  (When the tree wires the keeper, [gen_wired] becomes true, the model and
+   the differential run follow it, and C09_refunds_le_payments_over_histories is the live bound.) *)
+Theorem C09_end_block_returns_nothing_when_unwired : forall c s s',
+  no_history s -> end_block c s = Ok s' -> no_history s' /\ forall x d, bal s' x d = bal s x d.
+Proof. exact end_block_neutral. Qed.
+Print Assumptions C09_end_block_returns_nothing_when_unwired.
+
 (* the tree is inside the translator's fragment and its decorator chain is the modelled one *)
 Theorem C09_translation_side_conditions :
-  gen_errors = [] /\ ante_chain = expected_chain /\ gen_post_handler_installed = false.
+  gen_errors = [] /\ ante_chain = expected_chain.
 Proof. exact gen_chain_ok. Qed.
 Print Assumptions C09_translation_side_conditions.
 
@@ -118,18 +144,30 @@ Print Assumptions C09_translation_side_conditions.
 Definition ex_cfg : fcfg :=
   mkCfg (mkFilt "ukex" (mkBW ["frozen"%string] ["ukex"%string]) true false 1 1 [] 1000)
         [mkToken "ukex" PREC true; mkToken "ubtc" (10 * PREC) true] true 100 1000000
-        [("send"%string, (300, 50))].
+        [("send"%string, (300, 50))] [] 0.
 Definition ex_state : st :=
   mkSt [(("a"%string, "ukex"%string), 5000); (("a"%string, "ubtc"%string), 70)] [("a"%string, mkAcct 3 false)] [] [] [].
 (* a fee paid in two tokens (value 200 + 30*10 = 500 >= 300), a message that fails: only the
    admission bookkeeping remains *)
-Definition ex_tx : tx := mkTx [("ubtc"%string, 30); ("ukex"%string, 200)] [MSend "a" "b" [("ukex"%string, 999999)]] [3] true.
+Definition ex_tx : tx := mkTx [("ubtc"%string, 30); ("ukex"%string, 200)] [MSend "a" "b" [("ukex"%string, 999999)]] [3] true "" 200000 false.
 Example C09_nonvacuous_failed_tx :
   no_overflow ex_cfg (t_fee ex_tx) (t_msgs ex_tx) = true /\
-  exists s', run_tx gen_shape gen_wired ex_cfg ex_state ex_tx = (s', TxMsgFailed)
+  exists s', run_tx gen_shape gen_wired gen_post_handler_installed ex_cfg ex_state ex_tx = (s', TxMsgFailed)
              /\ bal s' "a" "ukex" = 4800 /\ bal s' "a" "ubtc" = 40 /\ bal s' collector "ubtc" = 30
-             /\ get_acct s' "a" = Some (mkAcct 4 true) /\ s_exec s' = [("send"%string, "a"%string)].
+             /\ get_acct s' "a" = Some (mkAcct 4 true) /\ s_exec s' = [("send"%string, "a"%string, false)].
 Proof. split; [vm_compute; reflexivity|]. eexists. vm_compute. repeat split. Qed.
+
+(* a wired tree with a post handler: a delivered send marked successful is returned
+   FailureFee - ExecutionFee = 0 here (300 > 50), a failed one 250, paid back from the history *)
+Definition ex_tx_ok : tx := mkTx [("ubtc"%string, 30); ("ukex"%string, 200)] [MSend "a" "b" [("ukex"%string, 9)]] [3] true "" 200000 false.
+Example C09_nonvacuous_wired_refund :
+  (let '(s1, r1) := run_tx shape_repaired true true ex_cfg ex_state ex_tx in
+   match end_block ex_cfg s1 with Ok s2 => (r1, bal s2 "a" "ubtc" - bal s1 "a" "ubtc", hist_of s2 "a") | _ => (r1, -1, []) end)
+  = (TxMsgFailed, 25, [("ubtc"%string, 5); ("ukex"%string, 200)])
+  /\ (let '(s1, r1) := run_tx shape_repaired true true ex_cfg ex_state ex_tx_ok in
+      match end_block ex_cfg s1 with Ok s2 => (r1, s_exec s1, bal s2 "a" "ubtc" - bal s1 "a" "ubtc") | _ => (r1, [], -1) end)
+     = (TxOk, [("send"%string, "a"%string, true)], 0).
+Proof. vm_compute. split; reflexivity. Qed.
 
 Example C09_nonvacuous_history :
   hist_run (c_tokens ex_cfg) [HPay [("ubtc"%string, 30); ("ukex"%string, 200)]; HRefund [("ukex"%string, 250)]; HPay [("ukex"%string, 10)]; HRefund [("ukex"%string, 1000)]] [] [] []
